@@ -84,7 +84,7 @@ pub struct Mix {
     pub lenient: bool,
 }
 
-pub const N_KINDS: usize = 22;
+pub const N_KINDS: usize = 24;
 
 const PIECES_PLAIN: &[&str] = &["a", "bc", "Z", " ", "_", "0", "{", "}", "\"", "\\", "(", ",", ")", ".."];
 const PIECES_NL: &[&str] = &["\n", "\n", "x\ny", "\n\n", "end\n", "\nq", "    ", ",\n"];
@@ -154,6 +154,8 @@ pub fn gen_mix(r: &mut Rng) -> Mix {
         1,  // 19 OptSome
         1,  // 20 Pair
         4,  // 21 SutTuple
+        2,  // 22 Bump
+        1,  // 23 Arm
     ];
     for i in 0..N_KINDS {
         w[i] = if r.chance(3, 4) { base[i] } else { 0 };
@@ -201,7 +203,7 @@ fn gen_children(r: &mut Rng, m: &Mix, depth: u32, budget: &mut usize, max: usize
 fn gen_action(r: &mut Rng, m: &Mix, depth: u32, budget: &mut usize) -> Action {
     let mut w = m.w;
     if depth >= m.max_depth {
-        for x in w.iter_mut().skip(14) {
+        for x in w.iter_mut().skip(14).take(8) {
             *x = 0;
         }
         if w.iter().all(|x| *x == 0) {
@@ -262,11 +264,13 @@ fn gen_action(r: &mut Rng, m: &Mix, depth: u32, budget: &mut usize) -> Action {
             Box::new(gen_script(r, m, depth + 1, budget)),
             Box::new(gen_script(r, m, depth + 1, budget)),
         ),
-        _ => Action::SutTuple {
+        21 => Action::SutTuple {
             name: r.pick(NAMES).to_string(),
             fields: gen_children(r, m, depth, budget, 4),
             non_exh: r.chance(1, 3),
         },
+        22 => Action::Bump,
+        _ => Action::Arm,
     }
 }
 
